@@ -148,6 +148,15 @@ def gen_enc(r, tier):
     out = []
     for i in range(n):
         sc = p_C04.gen_scenario(r)
+        if i % 5 == 1:
+            # hand-built histograms whose explicit +Inf bucket is NOT the last element (a custom collector listing buckets
+            # widest-first): both builds must still agree on whether the implicit +Inf line is needed
+            for f in sc["fams"]:
+                for m in f["metrics"]:
+                    h = m["hist"]
+                    if h is not None and len(h["b"]) >= 1:
+                        pos = r.randrange(len(h["b"]))
+                        h["b"].insert(pos, (h["b"][pos][0], PINF))
         if i % 4 == 0:
             # same families with some setters skipped on the wire; the model / number tables see the defaults
             wire = [sprinkle_unset(r, f) for f in sc["fams"]]
